@@ -33,6 +33,7 @@ variable (s : St) (e : CtxErr)
 @[simp] theorem closeStream_wq (c : Nat) : (closeStream s c).wq = s.wq := by unfold closeStream; split <;> rfl
 @[simp] theorem closeStream_streaming (c : Nat) : (closeStream s c).streaming = s.streaming := by unfold closeStream; split <;> rfl
 @[simp] theorem closeStream_gotMsg (c : Nat) : (closeStream s c).gotMsg = s.gotMsg := by unfold closeStream; split <;> rfl
+@[simp] theorem closeStream_serverStreams (c : Nat) : (closeStream s c).serverStreams = s.serverStreams := by unfold closeStream; split <;> rfl
 @[simp] theorem closeStream_sdone (c : Nat) : (closeStream s c).sdone = true := by
   unfold closeStream; split <;> simp_all
 @[simp] theorem closeStream_hdr (c : Nat) (h : s.sdone = false) : (closeStream s c).hdr = true := by
@@ -48,6 +49,7 @@ theorem closeStream_of_sdone (c : Nat) (h : s.sdone = true) : closeStream s c = 
 @[simp] theorem fired_wq : (fired s e).wq = s.wq := by unfold fired finish; repeat' split <;> simp
 @[simp] theorem fired_streaming : (fired s e).streaming = s.streaming := by unfold fired finish; repeat' split <;> simp
 @[simp] theorem fired_gotMsg : (fired s e).gotMsg = s.gotMsg := by unfold fired finish; repeat' split <;> simp
+@[simp] theorem fired_serverStreams : (fired s e).serverStreams = s.serverStreams := by unfold fired finish; repeat' split <;> simp
 end fields
 
 
@@ -64,15 +66,17 @@ structure WF (s : St) : Prop where
   ctx_sdone : s.ctx ≠ none → s.streaming = true → s.created = true → s.sdone = true
   fresh : s.created = false → s.finished = none ∧ s.sdone = false ∧ s.hdr = false
   pre_created : (s.pc = .parked .pick ∨ s.pc = .parked .newStream) → s.created = false
+  ss_streaming : s.serverStreams = true → s.streaming = true
 
-theorem wf_init (st rd : Bool) (q sz : Nat) : WF (St.init st rd q sz) := by
+theorem wf_init (st rd : Bool) (q sz : Nat) (ss : Bool) : WF (St.init st rd q sz ss) := by
   constructor <;> simp [St.init, defaultWriteQuota]
+  intro h _; exact h
 
 theorem wf_closeStream {s : St} (h : WF s) (c : Nat) (hc : s.ctx ≠ none) (hcr : s.created = true) : WF (closeStream s c) := by
-  obtain ⟨h1, h2, h3, h4, h5, h6, h7, h8, h9, h10, h11⟩ := h
+  obtain ⟨h1, h2, h3, h4, h5, h6, h7, h8, h9, h10, h11, h12⟩ := h
   unfold closeStream
   split
-  · exact ⟨h1, h2, h3, h4, h5, h6, h7, h8, h9, h10, h11⟩
+  · exact ⟨h1, h2, h3, h4, h5, h6, h7, h8, h9, h10, h11, h12⟩
   · constructor <;> simp_all
 
 theorem wf_recvClose {s : St} (h : WF s) (b : Bool) (hcr : s.created = true) : WF (recvClose b s) := by
@@ -84,7 +88,7 @@ theorem wf_recvClose {s : St} (h : WF s) (b : Bool) (hcr : s.created = true) : W
   · exact h
 
 theorem wf_takeHead {s s' : St} (h : WF s) (hp : s.pc = .parked .recv) (hw : takeHead s = some s') : WF s' := by
-  obtain ⟨h1, h2, h3, h4, h5, h6, h7, h8, h9, h10, h11⟩ := h
+  obtain ⟨h1, h2, h3, h4, h5, h6, h7, h8, h9, h10, h11, h12⟩ := h
   have hh : s.buf ≠ [] → s.hdr = true := by
     intro hb; cases hh : s.hdr with
     | true => rfl
@@ -101,7 +105,7 @@ theorem wf_takeHead {s s' : St} (h : WF s) (hp : s.pc = .parked .recv) (hw : tak
   · split at hw <;> simp at hw <;> subst hw <;> constructor <;> simp_all
 
 theorem wf_wake {b : Bool} {s s' : St} (h : WF s) (hw : wake b s = some s') : WF s' := by
-  obtain ⟨h1, h2, h3, h4, h5, h6, h7, h8, h9, h10, h11⟩ := h
+  obtain ⟨h1, h2, h3, h4, h5, h6, h7, h8, h9, h10, h11, h12⟩ := h
   unfold wake at hw
   split at hw
   · -- pick
@@ -135,7 +139,7 @@ theorem wf_wake {b : Bool} {s s' : St} (h : WF s) (hw : wake b s = some s') : WF
     rename_i hp
     have hp' : (recvClose b s).pc = .parked .recv := by
       unfold recvClose; split <;> (try split) <;> simp [hp]
-    exact wf_takeHead (wf_recvClose ⟨h1, h2, h3, h4, h5, h6, h7, h8, h9, h10, h11⟩ b (h6 (by simp [hp]))) hp' hw
+    exact wf_takeHead (wf_recvClose ⟨h1, h2, h3, h4, h5, h6, h7, h8, h9, h10, h11, h12⟩ b (h6 (by simp [hp]))) hp' hw
   · simp at hw
   · simp at hw
 
@@ -152,11 +156,11 @@ theorem wf_finish {s : St} (h : WF s) (c : Nat) (hc : s.ctx ≠ none) (hcr : s.c
   split
   · exact h
   · apply wf_closeStream _ _ (by simpa using hc) (by simpa using hcr)
-    obtain ⟨h1, h2, h3, h4, h5, h6, h7, h8, h9, h10, h11⟩ := h
+    obtain ⟨h1, h2, h3, h4, h5, h6, h7, h8, h9, h10, h11, h12⟩ := h
     constructor <;> simp_all
 
 theorem wf_fired {s : St} (h : WF s) (e : CtxErr) (hc : s.ctx = none) : WF (fired s e) := by
-  obtain ⟨h1, h2, h3, h4, h5, h6, h7, h8, h9, h10, h11⟩ := h
+  obtain ⟨h1, h2, h3, h4, h5, h6, h7, h8, h9, h10, h11, h12⟩ := h
   unfold fired finish closeStream
   split <;> (try split) <;> (try split) <;> constructor <;> simp_all
 
@@ -167,34 +171,34 @@ theorem wf_step {b : Bool} {s : St} (h : WF s) (ev : Ev) : WF (step b s ev) := b
     | some _ => simpa [step, hc] using h
     | none => rw [step_ctxFire e hc]; exact wf_resume _ (wf_fired h e hc)
   | pickerReady =>
-    apply wf_resume; obtain ⟨h1, h2, h3, h4, h5, h6, h7, h8, h9, h10, h11⟩ := h; constructor <;> simp_all
+    apply wf_resume; obtain ⟨h1, h2, h3, h4, h5, h6, h7, h8, h9, h10, h11, h12⟩ := h; constructor <;> simp_all
   | quotaAvail =>
-    apply wf_resume; obtain ⟨h1, h2, h3, h4, h5, h6, h7, h8, h9, h10, h11⟩ := h; constructor <;> simp_all
+    apply wf_resume; obtain ⟨h1, h2, h3, h4, h5, h6, h7, h8, h9, h10, h11, h12⟩ := h; constructor <;> simp_all
   | replenish n =>
-    apply wf_resume; obtain ⟨h1, h2, h3, h4, h5, h6, h7, h8, h9, h10, h11⟩ := h
+    apply wf_resume; obtain ⟨h1, h2, h3, h4, h5, h6, h7, h8, h9, h10, h11, h12⟩ := h
     constructor <;> simp_all
     intro hs hp; have := h7 hs hp; omega
   | headers =>
     simp only [step]; split
     · exact h
-    · apply wf_resume; obtain ⟨h1, h2, h3, h4, h5, h6, h7, h8, h9, h10, h11⟩ := h; constructor <;> simp_all
+    · apply wf_resume; obtain ⟨h1, h2, h3, h4, h5, h6, h7, h8, h9, h10, h11, h12⟩ := h; constructor <;> simp_all
   | message =>
     simp only [step]; split
     · exact h
-    · apply wf_resume; obtain ⟨h1, h2, h3, h4, h5, h6, h7, h8, h9, h10, h11⟩ := h; constructor <;> simp_all
+    · apply wf_resume; obtain ⟨h1, h2, h3, h4, h5, h6, h7, h8, h9, h10, h11, h12⟩ := h; constructor <;> simp_all
   | trailers c =>
     simp only [step]; split
     · exact h
-    · apply wf_resume; obtain ⟨h1, h2, h3, h4, h5, h6, h7, h8, h9, h10, h11⟩ := h; constructor <;> simp_all
+    · apply wf_resume; obtain ⟨h1, h2, h3, h4, h5, h6, h7, h8, h9, h10, h11, h12⟩ := h; constructor <;> simp_all
   | appSend sz =>
     simp only [step]; split
     · split
       · exact h
-      · apply wf_resume; obtain ⟨h1, h2, h3, h4, h5, h6, h7, h8, h9, h10, h11⟩ := h; constructor <;> simp_all
+      · apply wf_resume; obtain ⟨h1, h2, h3, h4, h5, h6, h7, h8, h9, h10, h11, h12⟩ := h; constructor <;> simp_all
     · exact h
   | appRecv =>
     simp only [step]; split
-    · apply wf_resume; obtain ⟨h1, h2, h3, h4, h5, h6, h7, h8, h9, h10, h11⟩ := h
+    · apply wf_resume; obtain ⟨h1, h2, h3, h4, h5, h6, h7, h8, h9, h10, h11, h12⟩ := h
       constructor <;> simp_all <;> (try split) <;> simp_all
     · exact h
 
@@ -234,7 +238,7 @@ theorem fired_unary {s : St} (e : CtxErr) (h : WF s) (hs : s.streaming = false) 
 
 theorem fired_streaming_created {s : St} (e : CtxErr) (h : WF s) (hs : s.streaming = true) (hcr : s.created = true)
     (hc : s.ctx = none) (hsd : s.sdone = false) :
-    fired s e = { s with ctx := some e, finished := some (codeOfCtx e), sdone := true, hdr := true,
+    fired s e = { s with ctx := some e, finished := some (codeOfCtx e), sdone := true, rstSent := true, hdr := true,
                          buf := s.buf ++ [.err (codeOfCtx e)] } := by
   simp [fired, h.watch_s hs hcr, finish, h.fin_ctx hc, closeStream, hsd]
 
@@ -266,7 +270,7 @@ theorem parked_header {b b' : Bool} {s : St} (e : CtxErr) (h : WF s) (hp : s.pc 
           ∧ t'.streaming = t.streaming ∧ t'.gotMsg = t.gotMsg := by
       intro t h1 h2 h3 h4
       cases b' <;> simp [wake, h1, h2, h3, closeStream, h4]
-    obtain ⟨t', hw1, hpc, hbuf, hctx, hsd', hst, _⟩ := w1 { s with ctx := some e, finished := some (codeOfCtx e), sdone := true, hdr := true, buf := [Item.err (codeOfCtx e)] } hp rfl rfl rfl
+    obtain ⟨t', hw1, hpc, hbuf, hctx, hsd', hst, _⟩ := w1 { s with ctx := some e, finished := some (codeOfCtx e), sdone := true, rstSent := true, hdr := true, buf := [Item.err (codeOfCtx e)] } hp rfl rfl rfl
     rw [resume_some hw1]
     have w2 : wake b' t' = some { t' with pc := .returned (codeOfCtx e) } := by
       simp [wake, hpc, recvClose, hctx, closeStream, hsd', takeHead, hbuf]
@@ -304,8 +308,8 @@ theorem parked_recv {b b' : Bool} {s : St} (e : CtxErr) (h : WF s) (hp : s.pc = 
   | true =>
     rw [fired_streaming_created e h hs hcr hc hsd, fuelOf]
     simp only [hb, List.nil_append, List.length_cons, List.length_nil]
-    have w2 : wake b' { s with ctx := some e, finished := some (codeOfCtx e), sdone := true, hdr := true, buf := [Item.err (codeOfCtx e)] } =
-        some { s with ctx := some e, finished := some (codeOfCtx e), sdone := true, hdr := true, buf := [Item.err (codeOfCtx e)], pc := .returned (codeOfCtx e) } := by
+    have w2 : wake b' { s with ctx := some e, finished := some (codeOfCtx e), sdone := true, rstSent := true, hdr := true, buf := [Item.err (codeOfCtx e)] } =
+        some { s with ctx := some e, finished := some (codeOfCtx e), sdone := true, rstSent := true, hdr := true, buf := [Item.err (codeOfCtx e)], pc := .returned (codeOfCtx e) } := by
       cases b' <;> simp [wake, hp, recvClose, closeStream, takeHead]
     rw [resume_some w2, resume_none (wake_returned _ _ _ rfl)]
 
@@ -329,8 +333,8 @@ theorem parked_wquota {b b' : Bool} {s : St} (e : CtxErr) (h : WF s) (hp : s.pc 
   have hcr := h.created_pos (Or.inl hp)
   refine ⟨hs, ?_⟩
   rw [step_ctxFire e hc, fired_streaming_created e h hs hcr hc hsd, fuelOf]
-  have w1 : wake b' { s with ctx := some e, finished := some (codeOfCtx e), sdone := true, hdr := true, buf := s.buf ++ [Item.err (codeOfCtx e)] } =
-      some { s with ctx := some e, finished := some (codeOfCtx e), sdone := true, hdr := true, buf := s.buf ++ [Item.err (codeOfCtx e)], pc := .app } := by
+  have w1 : wake b' { s with ctx := some e, finished := some (codeOfCtx e), sdone := true, rstSent := true, hdr := true, buf := s.buf ++ [Item.err (codeOfCtx e)] } =
+      some { s with ctx := some e, finished := some (codeOfCtx e), sdone := true, rstSent := true, hdr := true, buf := s.buf ++ [Item.err (codeOfCtx e)], pc := .app } := by
     simp [wake, hp, hq, hs]
   simp only [List.length_append, List.length_cons, List.length_nil]
   rw [resume_some w1, resume_none (wake_app _ _ rfl)]
@@ -399,7 +403,7 @@ theorem recvClose_sdone {b : Bool} {s : St} (hsd : s.sdone = true) : recvClose b
 
 /-- Draining: a finished streaming RPC hands the application the k messages that were buffered
     before the error, then the status. -/
-theorem drain_returns (pref : Nat → Bool) (c : Nat) : ∀ (k n : Nat) (s : St), s.pc = .app → s.streaming = true →
+theorem drain_returns (pref : Nat → Bool) (c : Nat) : ∀ (k n : Nat) (s : St), s.pc = .app → s.serverStreams = true →
     s.hdr = true → s.sdone = true → s.buf = List.replicate k Item.msg ++ [.err c] →
     (run pref n s (List.replicate (k + 1) .appRecv)).pc = .returned c
       ∧ (run pref n s (List.replicate (k + 1) .appRecv)).delivered = s.delivered + k := by
@@ -429,5 +433,53 @@ theorem drain_returns (pref : Nat → Bool) (c : Nat) : ∀ (k n : Nat) (s : St)
     constructor
     · exact this.1
     · rw [this.2]; simp; omega
+
+/-- The stream has been released on the client: `s.done` closed, RST_STREAM(CANCEL) on the wire, the
+    status fixed to `c`. -/
+def Released (c : Nat) (s : St) : Prop := s.sdone = true ∧ s.rstSent = true ∧ s.finished = some c
+
+theorem released_takeHead {c : Nat} {s s' : St} (h : Released c s) (hw : takeHead s = some s') : Released c s' := by
+  obtain ⟨h1, h2, h3⟩ := h
+  unfold takeHead at hw
+  split at hw
+  · simp at hw
+  · split at hw
+    · simp at hw; subst hw; exact ⟨h1, h2, h3⟩
+    · split at hw <;> simp at hw <;> subst hw <;> exact ⟨h1, h2, h3⟩
+  · simp at hw; subst hw; exact ⟨h1, h2, h3⟩
+  · split at hw <;> simp at hw <;> subst hw <;> exact ⟨h1, h2, h3⟩
+
+theorem released_wake {b : Bool} {c : Nat} {s s' : St} (h : Released c s) (hw : wake b s = some s') : Released c s' := by
+  obtain ⟨h1, h2, h3⟩ := h
+  have hcs : ∀ k, closeStream s k = s := fun k => closeStream_of_sdone s k h1
+  have hrc : recvClose b s = s := recvClose_sdone h1
+  unfold wake at hw
+  simp only [hcs, hrc] at hw
+  split at hw
+  all_goals (repeat' (split at hw))
+  all_goals first
+    | (simp at hw; done)
+    | exact released_takeHead ⟨h1, h2, h3⟩ hw
+    | (simp at hw; subst hw
+       first
+         | exact ⟨h1, h2, h3⟩
+         | (simp only [armWatcher, finish, Released]; split <;> simp [h1, h2, h3]))
+
+theorem released_resume {b : Bool} {c : Nat} : ∀ (fuel : Nat) {s : St}, Released c s → Released c (resume b fuel s)
+  | 0, _, h => h
+  | fuel + 1, s, h => by
+    unfold resume
+    split
+    · exact h
+    · rename_i s' hw; exact released_resume fuel (released_wake h hw)
+
+/-- Wherever the goroutine is — in application code between two calls, or parked in any select — the
+    watcher of a stream created through NewStream releases it when the context is done. -/
+theorem ctxFire_releases {b : Bool} {s : St} (e : CtxErr) (h : WF s) (hs : s.streaming = true) (hcr : s.created = true)
+    (hc : s.ctx = none) (hsd : s.sdone = false) : Released (codeOfCtx e) (step b s (.ctxFire e)) := by
+  rw [step_ctxFire e hc]
+  apply released_resume
+  rw [fired_streaming_created e h hs hcr hc hsd]
+  exact ⟨rfl, rfl, rfl⟩
 
 end GrpcProofs.Lemmas.Deadline
